@@ -251,8 +251,16 @@ def check(rep, tier, seed):
         cases.append(gen_case(seed, 1000 + i, ENGINES[i % 3]))
     scases, n_spl = stepped_cases(seed, tier)
     cases += scases
+    # a later CREATE of the key whose delete landed with an unknown outcome, racing the repair of that delete (/repo
+    # eb6d1d1; generator and oracle are C01's: "followed by arbitrary further writes to the same keys" - the answer to
+    # that further write must not be a failed condition the key never justified)
+    from . import c01
+    cvr = [c01.create_vs_repair_case(seed, 50, "badger", "early"), c01.create_vs_repair_case(seed, 51, "memkv", "late")]
+    if tier != "quick":
+        cvr += [c01.create_vs_repair_case(seed, 60 + i, ENGINES[i % 3], "random") for i in range(12)]
+    cases += cvr
     core.run_cases(cases)
-    if core.judge(rep, "C09", cases, oracle):
+    if core.judge(rep, "C09", cases, lambda c: c01.create_vs_repair_oracle(c) if c.meta.get("cvr") else oracle(c)):
         return
     if tier != "quick":
         # the real TiKV client's own "result undetermined" (the answer of the commit request is lost after the mock
@@ -269,6 +277,7 @@ def check(rep, tier, seed):
                 return
     rep.cov["fault_placements"] = len(pl)
     rep.cov["stepped_repair_placements"] = n_spl
+    rep.cov["create_vs_repair_scripts"] = len(cvr)
     rep.assumptions += ["unknown-outcome faults injected at the KvStorage boundary (applied / not applied), incl. on the repair write",
                         "retry interval 0 / check interval 5 ms through the verif setter; each retry step released by the script (hook gate retry.step)",
                         "sequential client requests around the faults; in the stepped-repair cases the repair's own storage calls (read, commit) "
